@@ -247,7 +247,8 @@ def run(tier, seed):
               perm_cases.append('(%s, %s)' % (glist(list(zip(keys, [float(v) for v in dct.values()])), lambda kv: '(%s, %s)' % (gQ(kv[0]), gQ(kv[1]))),
                                               glist(list(zip(keys, [float(v) for v in dct.values()])), lambda kv: '(%s, %s)' % (gQ(kv[0]), gQ(kv[1])))))
               perm_objs.append({'over': iname, 'parameter': nm, 'dictionary': {str(k): str(v) for k, v in dct.items()}})
-            if sorted(map(str, dct.keys())) != sorted(map(str, dct.values())):
+            fv_ = [str(v_) for v_ in dps.search_space.get(nm).feasible_values]
+            if sorted(map(str, dct.keys())) != sorted(fv_) or sorted(map(str, dct.values())) != sorted(fv_):
               viol('PermutingExperimenter: the value map of a parameter is not a bijection of its feasible values', {'over': iname, 'parameter': nm, 'map': {str(k): str(v) for k, v in dct.items()}})
           for p in sample(dps, 3):
             a = mvals(evalv(w, p))
